@@ -335,6 +335,9 @@ class FunctorPool:
 
         buffer = Buffer()
         finished_cnt = 0
+        # must be set before the sending thread starts, else this loop could be evaluated before the thread sets them
+        self._sending_work = True
+        self._data_cnt = 0
 
         with self.SendWorkThread(self, data, chunk_size) as send_thread:
             while self._sending_work or finished_cnt < self._data_cnt:
@@ -361,6 +364,9 @@ class FunctorPool:
         :return: generator of results
         """
         finished_cnt = 0
+        # must be set before the sending thread starts, else this loop could be evaluated before the thread sets them
+        self._sending_work = True
+        self._data_cnt = 0
 
         with self.SendWorkThread(self, data, chunk_size):
             while self._sending_work or finished_cnt < self._data_cnt:
